@@ -78,6 +78,11 @@ def ask(ureg, q, num):
         if kind == "toreduced":
             r = ureg.Quantity(num(q[1]), q[2]).to_reduced_units()
             return ["ok", norm_num(r.magnitude), norm_units(r)]
+        if kind == "default_system":
+            return ["ok", ureg.default_system]
+        if kind == "settings":
+            return ["ok", ureg.default_system, ureg.case_sensitive, bool(ureg.force_ndarray), bool(ureg.auto_reduce_dimensions),
+                    ureg.non_int_type.__name__, sorted(ureg._defaults.items()) if hasattr(ureg, "_defaults") else None]
         if kind == "members":
             return ["ok", sorted(ureg.get_group(q[1], False).members)]
         if kind == "sysmembers":
